@@ -53,7 +53,7 @@ VARIABLES slot, dig, known, liveBlocks, liveItems
 vars == <<slot, dig, known, liveBlocks, liveItems>>
 
 Kinds == {"Construct", "Mutate", "CopyConstruct", "MoveConstruct", "CopyAssign", "MoveAssign", "SelfAssign",
-          "ChainAssign", "MergeRef", "MergeMove", "Serialize", "Reset", "Destroy"}
+          "ChainAssign", "MergeRef", "MergeCRef", "MergeMove", "Serialize", "Reset", "Destroy"}
 
 Dead == [st |-> "Dead", hist |-> <<>>]
 Live(h) == [st |-> "Live", hist |-> h]
@@ -80,7 +80,8 @@ Pre(kind, i, j, k, op) ==
     [] kind = "SelfAssign"    -> IsLive(i)
     [] kind = "ChainAssign"   -> /\ j \in Slots /\ k \in Slots /\ Cardinality({i, j, k}) = 3
                                  /\ IsLive(k) /\ IsObj(j) /\ IsObj(i)          \* s[i] = s[j] = s[k]
-    [] kind = "MergeRef"      -> IsLive(i) /\ j \in Slots /\ j # i /\ IsLive(j)   \* s[i].merge(s[j])
+    [] kind = "MergeRef"      -> IsLive(i) /\ j \in Slots /\ j # i /\ IsLive(j)   \* s[i].merge(s[j]), s[j] a non-const lvalue
+    [] kind = "MergeCRef"     -> IsLive(i) /\ j \in Slots /\ j # i /\ IsLive(j)   \* s[i].merge(s[j]), s[j] a const lvalue
     [] kind = "MergeMove"     -> IsLive(i) /\ j \in Slots /\ j # i /\ IsLive(j)   \* s[i].merge(std::move(s[j]))
     [] kind = "Serialize"     -> IsLive(i)
     [] kind = "Reset"         -> IsLive(i)
@@ -95,7 +96,7 @@ NewSlot(kind, i, j, k, op) ==
     [] kind = "CopyAssign"    -> [slot EXCEPT ![j] = Live(slot[i].hist)]
     [] kind = "MoveAssign"    -> [slot EXCEPT ![j] = Live(slot[i].hist), ![i] = MovedFrom]
     [] kind = "ChainAssign"   -> [slot EXCEPT ![j] = Live(slot[k].hist), ![i] = Live(slot[k].hist)]
-    [] kind = "MergeRef"      -> [slot EXCEPT ![i] = Live(Append(@.hist, Term("merge", slot[j].hist)))]
+    [] kind \in {"MergeRef", "MergeCRef"} -> [slot EXCEPT ![i] = Live(Append(@.hist, Term("merge", slot[j].hist)))]
     [] kind = "MergeMove"     -> [slot EXCEPT ![i] = Live(Append(@.hist, Term("merge", slot[j].hist))), ![j] = MovedFrom]
     [] kind = "Reset"         -> [slot EXCEPT ![i] = Live(Append(@.hist, Term("reset", <<>>)))]
     [] kind = "Destroy"       -> [slot EXCEPT ![i] = Dead]
@@ -108,7 +109,7 @@ Ctl(kind, i, j, k, op) == Pre(kind, i, j, k, op) /\ slot' = NewSlot(kind, i, j, 
 (***************************************************************************)
 \* slots whose content the call is allowed to change
 Touched(kind, i, j, k) ==
-  CASE kind \in {"Construct", "Mutate", "MergeRef", "Reset", "Destroy"} -> {i}
+  CASE kind \in {"Construct", "Mutate", "MergeRef", "MergeCRef", "Reset", "Destroy"} -> {i}
     [] kind \in {"CopyConstruct", "CopyAssign"} -> {j}
     [] kind \in {"MoveConstruct", "MoveAssign", "MergeMove", "ChainAssign"} -> {i, j}
     [] OTHER -> {}                              \* SelfAssign, Serialize
